@@ -57,11 +57,12 @@ def check(rep, prop, tier, seed):
     names = [(f, pipeline.lname(f["file"])) for f in spec["formats"]]
     obligations = [("no_writable_statics_%s" % n, "checkC16 Gen.%s = true" % n, "by decide") for f, n in names]
     obligations.append(("no_writable_statics_Utils", "Gen.utilsStatics.all (fun x => x.2.2) = true", "by decide"))
+    obligations += [("readers_store_only_results_%s" % n, "checkReaders Gen.%s = true" % n, "by decide") for f, n in names if n in ("can", "canBrief", "vss", "vssBrief")]
     obligations += [("rows_%s" % n, "checkRows Spec.%s Gen.%s = true" % (n, n), "by decide +kernel") for f, n in names]
     general = ["O1722.schedule_independent", "O1722.local_comm", "O1722.shared_region_stable", "O1722.setter_local",
                "O1722.specSet_local", "O1722.getField_depends_only_on_field", "O1722.getter_accesses", "O1722.setter_accesses"]
     atoms_expr = "[" + ", ".join("(\"%s\", Gen.%s.statics.map (fun x => (\"static-is-const:\" ++ x.1, x.2.2)))" % (f["name"], n) for f, n in names) + \
-        ", (\"Utils\", Gen.utilsStatics.map (fun x => (\"static-is-const:\" ++ x.1, x.2.2)))]"
+        ", (\"Utils\", Gen.utilsStatics.map (fun x => (\"static-is-const:\" ++ x.1, x.2.2))), (\"Vss\", [(\"readers-store-only-results\", checkReaders Gen.vss)]), (\"Can\", [(\"readers-store-only-results\", checkReaders Gen.can)])]"
     res = pipeline.proof_stage(rep, prop, ["O1722.Gen.Data", "O1722.Props.Concurrency"], obligations, general, atoms_expr)
     diff_groups = {}
     bad, nsyms = writable_symbols()
